@@ -218,27 +218,22 @@ def report_cases(ck, out, results, label):
 # ------------------------------------------------------------------ the monitor must see planted errors
 
 def monitor_selftest(ck, out):
-    """Negative controls on a recorded trace: shift one column command to just after its activate, drop an activate,
-    corrupt one read response, drop one response. DRAMTrace must flag exactly those classes."""
+    """Negative controls on a recorded trace (one file, three copies of the first system): (1) an activate moved to one
+    cycle before a column command of its bank, (2) an activate removed, (3) one byte of a read response flipped and one
+    response removed. DRAMTrace must flag those classes in the respective copy."""
     path = out["files"][0]
+    first = next(s for s in out["systems"] if s["group"] == 0)
     with open(path) as f:
-        recs = [json.loads(x) for x in f]
-    first = out["systems"][[s["group"] for s in out["systems"]].index(0)]
-    a, b = first["first_line"] - 1, first["last_line"]
-    recs = recs[a:b]
-    d = core.scratch("dramneg-")
+        recs = [json.loads(x) for x in f][first["first_line"] - 1:first["last_line"]]
 
-    def write(name, rs):
-        p = os.path.join(d, name)
-        with open(p, "w") as f:
-            for r in rs:
-                f.write(json.dumps(r) + "\n")
-        return p
-    wants = []
-    # 1: a column command 1 cycle after the activate of its bank
-    rs = json.loads(json.dumps(recs))
+    def copy(n):
+        rs = json.loads(json.dumps(recs))
+        rs[0]["sys"] = 9000 + n
+        return rs
+    # 1
+    r1 = copy(1)
     last_act = {}
-    for r in rs:
+    for r in r1:
         if r["e"] != "cmd":
             continue
         k = (r["r"], r["g"], r["b"])
@@ -247,27 +242,30 @@ def monitor_selftest(ck, out):
         elif r["k"] in ("RD", "RDA", "WR", "WRA") and k in last_act:
             last_act[k]["t"] = r["t"] - 1
             break
-    wants.append((write("neg1.ndjson", rs), {"tRCD_activate_to_read", "tRCD_activate_to_write"}))
-    # 2: the first activate vanishes
-    rs = json.loads(json.dumps(recs))
-    i = next(i for i, r in enumerate(rs) if r["e"] == "cmd" and r["k"] == "ACT")
-    del rs[i]
-    wants.append((write("neg2.ndjson", rs), {"column_command_to_closed_bank"}))
-    # 3: one byte of a read response flipped / 4: one response lost
-    rs = json.loads(json.dumps(recs))
-    i = next(i for i, r in enumerate(rs) if r["e"] == "rsp" and r["op"] == "read" and r["d"])
-    rs[i]["d"][0] ^= 0x5A
-    j = next(j for j, r in enumerate(rs) if r["e"] == "rsp" and j > i)
-    del rs[j]
-    wants.append((write("neg3.ndjson", rs), {"read_data_mismatch", "masked_write_changed_unmasked_bytes"}))
-    results = validate_files(ck, [w[0] for w in wants])
-    for (p, classes), r in zip(wants, results):
-        got = {c["class"] for c in r.tagged.get("CASE", [])}
-        if not (got & classes):
-            raise core.Broken("monitor self-test: planted error %s not flagged (wanted one of %s, got %s)" % (os.path.basename(p), classes, got))
-    got3 = {c["class"] for c in results[2].tagged.get("CASE", [])}
-    if "request_never_completed" not in got3:
-        raise core.Broken("monitor self-test: a lost response was not flagged (got %s)" % got3)
+    # 2
+    r2 = copy(2)
+    del r2[next(i for i, r in enumerate(r2) if r["e"] == "cmd" and r["k"] == "ACT")]
+    # 3
+    r3 = copy(3)
+    i = next(i for i, r in enumerate(r3) if r["e"] == "rsp" and r["op"] == "read" and r["d"])
+    r3[i]["d"][0] ^= 0x5A
+    del r3[next(j for j, r in enumerate(r3) if r["e"] == "rsp" and j > i)]
+    d = core.scratch("dramneg-")
+    p = os.path.join(d, "negative.ndjson")
+    with open(p, "w") as f:
+        for r in r1 + r2 + r3:
+            f.write(json.dumps(r) + "\n")
+    res = validate_files(ck, [p])[0]
+    got = {}
+    for c in res.tagged.get("CASE", []):
+        got.setdefault(c["sys"], set()).add(c["class"])
+    wants = {9001: [{"tRCD_activate_to_read", "tRCD_activate_to_write"}], 9002: [{"column_command_to_closed_bank"}],
+             9003: [{"read_data_mismatch", "masked_write_changed_unmasked_bytes"}, {"request_never_completed"}]}
+    for sysid, alts in wants.items():
+        for classes in alts:
+            if not (got.get(sysid, set()) & classes):
+                raise core.Broken("monitor self-test: planted error %d not flagged (wanted one of %s, got %s)" % (
+                    sysid - 9000, sorted(classes), sorted(got.get(sysid, set()))))
     ck.cov["monitor_negative_controls"] = 4
 
 
@@ -284,7 +282,10 @@ def run(ck):
                        "the requester never overlaps a write in flight with another request on the same byte",
                        "a write with a DirtyMask writes the masked bytes only (memprotocol contract as implemented by idealmemcontroller)"]
     binary = build(ck)
-    check_oracle(ck)
+    if os.environ.get("C22_DEV_SKIP_ORACLE") and core.REPO != "/repo":
+        ck.note("development aid: oracle model checking skipped (mutation testing against %s)" % core.REPO)
+    else:
+        check_oracle(ck)
     systems, groups = systems_for(ck)
     out, results, d = run_systems(ck, binary, systems, groups, "C22")
     n_cases, stats = report_cases(ck, out, results, "C22")
